@@ -2,6 +2,7 @@ import Driver.Common
 import RxModel.OpsElem
 import RxModel.OpsSlice
 import RxModel.OpsVal
+import RxModel.OpsFb
 open Lean Drv Ops
 
 /-!
@@ -154,6 +155,67 @@ def handleC05 (j : Json) : Except String Json := do
     | .ok stages => pure (go (Slice.pipeOp (α := Val) stages) idv idv)
   | _ => throw s!"unknown operator {name}"
 
+/-! ### re-entrant feedback runs (`mode = "feedback"`): `{"fb":[notif..],"esc":[]}` -/
+
+def runFbJson {α β} (r : ROp α β) (cin : Val → α) (cout : β → Val) (inp : List (Int × Notif Val)) : Json :=
+  let vis := r.runFb 40 (inp.map (fun p => p.2.map cin))
+  Json.mkObj [("fb", .arr (vis.map (fun n => notifToJson (n.map cout))).toArray), ("esc", .arr #[])]
+
+def handleFb (j : Json) : Except String Json := do
+  let name ← getStr j "name"
+  let inp ← (← getArr j "input").mapM timedOfJson
+  let idv : Val → Val := id
+  let go {α β} (r : ROp α β) (cin : Val → α) (cout : β → Val) : Json := runFbJson r cin cout inp
+  match name with
+  | "map" =>
+    match ← getFnOpt j "f" with
+    | some f => pure (go (mapR f.call) idv idv)
+    | none => pure (go (mapR (fun v : Val => .ok v)) idv idv)
+  | "starmap" => pure (go (mapR (starred ((← getFnOpt j "f").map tabArgs))) idv idv)
+  | "pluck" => pure (go (mapR (pluckGet (← getVal j "key"))) idv idv)
+  | "filter" => pure (go (filterR (pred1 (← getFn j "p"))) idv idv)
+  | "filter_indexed" => pure (go (filterIndexedR ((← getFnOpt j "p").map pred2)) idv idv)
+  | "take" =>
+    let n ← getInt j "n"
+    if n < 0 then pure (ctorErr aoor) else pure (go (takeR (α := Val) n.toNat) idv idv)
+  | "skip" =>
+    let n ← getInt j "n"
+    if n < 0 then pure (ctorErr aoor) else pure (go (skipR (α := Val) n.toNat) idv idv)
+  | "take_while" => pure (go (takeWhileR (pred1 (← getFn j "p")) (← getBool j "inclusive")) idv idv)
+  | "take_while_indexed" => pure (go (takeWhileIndexedR (pred2 (← getFn j "p")) (← getBool j "inclusive")) idv idv)
+  | "skip_while" => pure (go (skipWhileR (pred1 (← getFn j "p"))) idv idv)
+  | "distinct" => pure (go (distinctR (keyFn (← getFnOpt j "key")) (pyEqCmpE (← getFnOpt j "cmp"))) idv idv)
+  | "distinct_until_changed" =>
+    pure (go (distinctUntilChangedR (keyFn (← getFnOpt j "key")) (pyEqCmpE (← getFnOpt j "cmp"))) idv idv)
+  | "pairwise" => pure (go (pairwiseR (α := Val)) idv (fun p => .tup [p.1, p.2]))
+  | "start_with" => pure (go (startWithR (← getVals j "args")) idv idv)
+  | "default_if_empty" => pure (go (defaultIfEmptyR (← getVal j "dflt")) idv idv)
+  | "ignore_elements" => pure (go (ignoreElementsR (α := Val)) idv idv)
+  | "take_last" => pure (go (takeLastR (α := Val) (← getInt j "n")) idv idv)
+  | "skip_last" => pure (go (skipLastR (α := Val) (← getInt j "n")) idv idv)
+  | "take_last_buffer" => pure (go (takeLastBufferR (α := Val) (← getInt j "n")) idv Val.lst)
+  | "element_at" =>
+    let n ← getInt j "n"
+    if n < 0 then pure (ctorErr aoor) else pure (go (elementAtOrDefaultR (α := Val) n.toNat none) idv idv)
+  | "element_at_or_default" =>
+    let n ← getInt j "n"
+    if n < 0 then pure (ctorErr aoor) else pure (go (elementAtOrDefaultR (α := Val) n.toNat (some (← getVal j "dflt"))) idv idv)
+  | "find" => pure (go (findValueR (pred2 (← getFn j "p")) (fun x _ => some x) (none : Option Val)) idv (fun o => o.getD .none))
+  | "find_index" => pure (go (findValueR (pred2 (← getFn j "p")) (fun _ i => (i : Int)) (-1)) idv Val.int)
+  | "materialize" => pure (go (materializeR (α := Val)) idv notifToVal)
+  | "dematerialize" => pure (go (dematerializeR (α := Val)) notifOfVal idv)
+  | "slice" =>
+    -- a slice whose pipeline is a single stage is that operator; longer pipelines have no re-entrant model
+    match Slice.pipeline true (← getOptInt j "start") (← getOptInt j "stop") (← getOptInt j "step") with
+    | .error e => pure (ctorErr e)
+    | .ok [.take n] => pure (go (takeR (α := Val) n) idv idv)
+    | .ok [.skip n] => pure (go (skipR (α := Val) n) idv idv)
+    | .ok [.takeLast n] => pure (go (takeLastR (α := Val) (n : Int)) idv idv)
+    | .ok [.skipLast n] => pure (go (skipLastR (α := Val) (n : Int)) idv idv)
+    | .ok [.everyNth st] => pure (go (filterIndexedR (α := Val) (some (fun _ i => .ok (i % st == 0)))) idv idv)
+    | .ok _ => pure (Json.mkObj [("unsupported", .str name)])
+  | _ => pure (Json.mkObj [("unsupported", .str name)])
+
 /-! ### C07 -/
 
 def optIntJson : Option Int → Json
@@ -191,7 +253,7 @@ def handleSlice (j : Json) : Except String Json := do
 
 def handle (op : String) (j : Json) : Except String Json := do
   match op with
-  | "c05" => handleC05 j
+  | "c05" => if (j.getObjValAs? String "mode").toOption == some "feedback" then handleFb j else handleC05 j
   | "slice" => handleSlice j
   | _ => throw s!"unknown op {op}"
 
